@@ -1,0 +1,80 @@
+//go:build verif && (verif_all || verif_c18)
+// +build verif
+// +build verif_all verif_c18
+
+package gocql
+
+// Verification hooks for C18, round 6 (ownership of the buffers that cross the compressor boundary):
+// responses whose framer the caller still holds while later responses are received. Add-only.
+
+import (
+	"context"
+	"fmt"
+	"net"
+	"time"
+)
+
+// VerifC18dPending is what Conn.exec returned to a caller: the framer of one response, not parsed yet.
+type VerifC18dPending struct{ f *framer }
+
+// VerifC18dExec sends one request through Conn.exec (kind "options" | "register" | "query") and returns
+// the framer of the response unparsed, as the callers inside gocql get it.
+func VerifC18dExec(c *Conn, kind, stmt string, timeout time.Duration) (*VerifC18dPending, error) {
+	ctx, cancel := context.WithTimeout(context.Background(), timeout)
+	defer cancel()
+	var b frameBuilder
+	switch kind {
+	case "options":
+		b = &writeOptionsFrame{}
+	case "register":
+		b = &writeRegisterFrame{events: []string{stmt}}
+	case "query":
+		b = &writeQueryFrame{statement: stmt, params: queryParams{consistency: One}}
+	default:
+		return nil, fmt.Errorf("verif: unknown request kind %q", kind)
+	}
+	f, err := c.exec(ctx, b, nil)
+	if err != nil {
+		return nil, err
+	}
+	return &VerifC18dPending{f}, nil
+}
+
+// Body is the slice the framer holds now (not a copy).
+func (p *VerifC18dPending) Body() []byte { return p.f.buf }
+
+// Opcode of the response header.
+func (p *VerifC18dPending) Opcode() byte { return byte(p.f.header.op) }
+
+// Supported parses the held response with framer.parseFrame and returns the SUPPORTED multimap.
+func (p *VerifC18dPending) Supported() (map[string][]string, error) {
+	fr, err := p.f.parseFrame()
+	if err != nil {
+		return nil, err
+	}
+	s, ok := fr.(*supportedFrame)
+	if !ok {
+		return nil, fmt.Errorf("verif: not a SUPPORTED frame: %T", fr)
+	}
+	return s.supported, nil
+}
+
+// VerifC18dQuery runs Conn.executeQuery for a statement that is sent as QUERY (no prepare) and returns
+// the Iter; its rows are read from the response's framer when the caller scans them.
+func VerifC18dQuery(c *Conn, stmt string, timeout time.Duration) *Iter {
+	ctx, cancel := context.WithTimeout(context.Background(), timeout)
+	defer cancel()
+	qry := &Query{stmt: stmt, cons: One, skipPrepare: true, prefetch: 0.25, disableAutoPage: true,
+		routingInfo: &queryRoutingInfo{}}
+	return c.executeQuery(ctx, qry)
+}
+
+// VerifC18dDial is VerifC18Dial with the per-request timeout chosen by the caller (the harness decides
+// on events, never on elapsed time: it passes a timeout far above anything a run needs).
+func VerifC18dDial(nc net.Conn, comp Compressor, proto int, timeout time.Duration) (*Conn, error) {
+	cfg := &ConnConfig{ProtoVersion: proto, CQLVersion: "3.0.0", Timeout: timeout, ConnectTimeout: timeout,
+		Compressor: comp, HostDialer: verifC18Dialer{nc}, disableCoalesce: true}
+	s := &Session{}
+	host := &HostInfo{hostId: "verif-c18", connectAddress: net.IPv4(127, 0, 0, 1), port: 9042}
+	return s.dial(context.Background(), host, cfg, connErrorHandlerFn(func(*Conn, error, bool) {}))
+}
